@@ -431,7 +431,7 @@ func runC08(c *engine.Ctx) {
 						c.Sample("transition", map[string]interface{}{"prf": ref.PRFs[prfIdx].Digest, "history": []string{ops[hist[0]].name}, "op": ops[oi].name, "keys": trs(outcome)})
 					}
 					return true
-				}, maxDepth, 20000)
+				}, maxDepth, 3000)
 			c.States += int64(res.States)
 			c.Transitions += res.Transitions
 			c.Traces += res.Transitions
